@@ -44,6 +44,21 @@ def handle (j : Json) : Json :=
     match (do pure ((← dCtx (fld j "ctx")), (← dSrc (fld j "src"))) : D (Ctx × Src)) with
     | .ok (c, s) => respondDoc j (renderSrc c s)
     | .error e => Json.mkObj [("bad", Json.str e)]
+  | .ok "critfold" =>
+    match (do pure ((← dCtx (fld j "ctx")), (← (← fArr j "terms").mapM dTerm), (← (fld j "kind").getStr?)) : D (Ctx × List Pypika.Term × String)) with
+    | .ok (c, ts, kind) => respondDoc j (render c (if kind == "any" then anyOf ts else allOf ts))
+    | .error e => Json.mkObj [("bad", Json.str e)]
+  | .ok "wherefold" =>
+    match (do pure ((← dCtx (fld j "ctx")), (← (← fArr j "terms").mapM dTerm)) : D (Ctx × List Pypika.Term)) with
+    | .ok (c, ts) =>
+      (match ts.foldl whereStep none with
+       | none => Json.mkObj [("none", Json.bool true)]
+       | some t => respondDoc j (render c t))
+    | .error e => Json.mkObj [("bad", Json.str e)]
+  | .ok "combine" =>
+    match (do pure ((← dCtx (fld j "ctx")), (← dBoolOp (← (fld j "bop").getStr?)), (← dTerm (fld j "a")), (← dTerm (fld j "b"))) : D (Ctx × BoolOp × Pypika.Term × Pypika.Term)) with
+    | .ok (c, op, a, b) => respondDoc j (render c (combine op a b))
+    | .error e => Json.mkObj [("bad", Json.str e)]
   | .ok "tbleq" =>
     match (do pure ((← dTbl (fld j "a")), (← dTbl (fld j "b"))) : D (Tbl × Tbl)) with
     | .ok (a, b) => Json.mkObj [("eq", Json.bool (a.beq b)), ("hash_eq", Json.bool (a.hashKey == b.hashKey)),
